@@ -233,9 +233,40 @@ func (ex *Exec) funcValueCall(v *ssa.Call, c *ssa.CallCommon, fv Val, pos token.
 	for _, a := range args {
 		ats = append(ats, a.T)
 	}
+	top := ex
+	for top.parent != nil {
+		top = top.parent
+	}
+	impure := top.vc.spec != nil && top.vc.spec.CallLog && top.vc.spec.Opts["impure"] != ""
+	logIdx := ex.get(ex.curState, "LOGN", "Int")
+	if impure {
+		st := ex.curState
+		ex.set(st, "LOGT0", "(Array Int Int)", sSto(ex.get(st, "LOGT0", "(Array Int Int)"), logIdx, ex.get(st, "CLK", "Int")))
+	}
 	ex.logCall(fv.T, sig, ats)
-	res := ex.applyFunc(fv.T, sig, ats)
-	ex.vc.assumptions["callbacks are pure, deterministic, terminating and do not touch library memory"] = true
+	var res []string
+	if impure {
+		// the callback may have state of its own: each logged call returns an arbitrary value, recorded in the log;
+		// it may take time, but it does not touch library memory
+		st := ex.curState
+		for k := 0; k < sig.Results().Len(); k++ {
+			srt := ex.vc.sortOf(sig.Results().At(k).Type())
+			r := ex.vc.fresh(ex.pfx+"cbres", srt)
+			key := fmt.Sprintf("LOGR%d:%s", k, sortIdent(srt))
+			as := "(Array Int " + srt + ")"
+			ex.set(st, key, as, sSto(ex.get(st, key, as), logIdx, r))
+			res = append(res, r)
+		}
+		clk := ex.get(st, "CLK", "Int")
+		nclk := ex.vc.fresh(ex.pfx+"clk_cb", "Int")
+		ex.vc.assume("(>= " + nclk + " " + clk + ")")
+		ex.set(st, "CLK", "Int", nclk)
+		ex.set(st, "LOGT1", "(Array Int Int)", sSto(ex.get(st, "LOGT1", "(Array Int Int)"), logIdx, nclk))
+		ex.vc.assumptions["callbacks of call-log (impure) functions may return different values on each call and take time, but do not touch library memory or panic"] = true
+	} else {
+		res = ex.applyFunc(fv.T, sig, ats)
+		ex.vc.assumptions["callbacks are pure, deterministic, terminating and do not touch library memory"] = true
+	}
 	if sig.Results().Len() == 0 {
 		return Val{}
 	}
